@@ -241,6 +241,7 @@ pub fn run(ctx: &Ctx) -> i32 {
     Stairs(usize, usize),
     Pow4(u32),
     LongScatter(u32),
+    Alias(u8),
     SameNumber,
   }
   let mut jobs: Vec<Job> = (0..njobs_hist).map(Job::Hist).collect();
@@ -312,6 +313,11 @@ pub fn run(ctx: &Ctx) -> i32 {
   // of two), then a packed tile pushed again over the beginning of the scattered cells
   for k in 10..=(if quick { 16u32 } else { 20 }) {
     jobs.push(Job::LongScatter(k));
+  }
+  // word-size aliases: cells that continue a run only modulo 2^8, 2^16, 2^32 (a difference or an
+  // index kept in a narrower integer makes them look consecutive), every depth where they exist
+  for d in 5..=29u8 {
+    jobs.push(Job::Alias(d));
   }
   jobs.push(Job::SameNumber);
   let chunk = 256;
@@ -564,6 +570,42 @@ pub fn run(ctx: &Ctx) -> i32 {
           }
         }
       }
+      Job::Alias(d) => {
+        let nh = n_hash(*d);
+        for wbits in [8u32, 16, 32] {
+          let mm = 1u64 << wbits;
+          if 5 * mm + 64 >= nh {
+            continue;
+          }
+          for h in [0u64, 16 * 37, (nh / 2 / 16) * 16, ((nh - 4 * mm - 64) / 16) * 16] {
+            let sets: Vec<Vec<u64>> = vec![
+              vec![h, h + 1, h + mm + 2, h + mm + 3],
+              vec![h, h + mm + 1, h + 2 * mm + 2, h + 3 * mm + 3],
+              vec![h + mm, h + mm + 1, h + 2, h + 3],
+              (0..16u64).map(|k| if k < 4 { h + k } else { h + mm + k }).collect(),
+              (0..16u64).map(|k| if k % 4 < 2 { h + k } else { h + mm + k }).collect(),
+              vec![h, h + 1, h + 2, h + mm + 3, h + mm + 4],
+            ];
+            for set in sets {
+              for rev in [false, true] {
+                let mut pushes = set.clone();
+                pushes.sort();
+                if rev {
+                  pushes.reverse();
+                }
+                for cap in [3usize, pushes.len(), 100] {
+                  for full in [true, false] {
+                    part.stratum("word-size-aliases", 1, 1);
+                    if let Some(v) = check_history(*d, full, cap, &pushes, &mut part) {
+                      part.viol(v);
+                    }
+                  }
+                }
+              }
+            }
+          }
+        }
+      }
       Job::LongScatter(k) => {
         let d = 14u8; // 3 * (2^20 + 1) cells fit in the depth-2 cell 121 (4^12 cells)
         let t0 = 121u64 << 24;
@@ -646,6 +688,7 @@ pub fn run(ctx: &Ctx) -> i32 {
       "bulk": "per depth (6, 9 quick; + 12, 18, 29 thorough) a deterministic multiset of ~9000 pushes (60 clusters, a whole aligned coarse cell of 4096 cells, an unaligned run of 1500, 400 repeats) in 3 orders x 5 capacities x 2 flags",
       "repush_size_sweep": format!("a whole tile then n of its cells again + 2 cells after it, every n in 1..={}, capacity = tile size (drain = or of the packed tile with n covered entries), both flags and the reverse arrival order", sweep_max),
       "merge_cascades": format!("{} staircase sequences: every cascade length 1..=29 (3k+1 entries), 4 child paths, all full / one partial stair / partial last cell; pack and lower depths 0..3", stairs.len()),
+      "word_size_aliases": "quads and 16-blocks whose members are split between h + k and h + 2^w + k (w = 8, 16, 32), 6 set shapes, 4 aligned starts, sorted and reversed pushes, 3 capacities, both flags, depths 5..=29",
       "long_scattered_histories": "2^k - 1, 2^k, 2^k + 1 cells of stride 3 at depth 14 (k = 10..=16 quick / 20 thorough), 4 buffer capacities, both flags; then an aligned tile pushed over their beginning",
       "power_of_four_runs": "runs of 4^k - 3 .. 4^k + 1 consecutive cells (k = 1..=11 quick / 12 thorough) from an aligned and an unaligned start, followed by a cell after a hole, both flags, one buffer",
       "small": "all subsets of the depth-0 cells, of the depth-1... (12 cells) and of 11 cells of depth 29, both orders; all rotations of the 48 depth-1 cells",
